@@ -352,3 +352,262 @@ RECIPES["C06"] = dict(mc=[mc_reader], record=record_c06, props=["C06", "DRIFT"],
                       speaks=lambda e: e.get("op") in ("NewMnemonic", "Read"),
                       rule="one scripted reader per edge of MC_Reader's state graph (every delivered count k -> k', every failure kind EOF/unexpected EOF/other with or "
                            "without bytes alongside, (0,nil) reads) for each of the five word counts, plus all two-piece splits and 1-byte reads; distinct by (count, language, reads)")
+
+
+# --------------------------------------------------------------------------
+# C07: fresh processes on the default source, observed with strace
+import subprocess
+
+
+def _unhex(s):
+    return bytes(int(x, 16) for x in re.findall(r'\\x([0-9a-f]{2})', s))
+
+
+def parse_strace(path):
+    """regions between VERIF-MARK writes: list of (name, [bytes delivered by getrandom...], clean)"""
+    regions, cur = [], None
+    for ln in open(path, errors="replace"):
+        m = re.search(r'write\(987, "((?:\\x[0-9a-f]{2})*)"', ln)
+        if m:
+            tag = _unhex(m.group(1)).decode(errors="replace").replace("VERIF-MARK-", "")
+            if tag.endswith("BEGIN"):
+                cur = dict(name=tag, rand=[], clean=True)
+            elif tag.endswith("END") and cur is not None:
+                regions.append(cur)
+                cur = None
+            continue
+        if cur is None:
+            continue
+        m = re.search(r'getrandom\("((?:\\x[0-9a-f]{2})*)"(\.\.\.)?, (\d+), (\w+)\)\s+= (\d+)', ln)
+        if m:
+            if m.group(2):
+                cur["clean"] = False     # strace truncated the buffer
+            cur["rand"].append(list(_unhex(m.group(1))))
+        elif "getrandom" in ln:
+            cur["clean"] = False         # unfinished / resumed / failed call: not usable as an observation
+    return regions
+
+
+def osproc_trace(binary, n, l, seed, d):
+    """one fresh process on the default source under strace -> (event lines, number of calls explained by getrandom)"""
+    tr, st = os.path.join(d, "t.ndjson"), os.path.join(d, "st.txt")
+    r = subprocess.run(["timeout", "120", "strace", "-f", "-e", "trace=getrandom,write", "-xx", "-s", "256", "-o", st,
+                        binary, "osproc", "-n", str(n), "-lang", str(l), "-seed", str(seed), "-out", tr],
+                       capture_output=True, text=True, env=dict(os.environ, VERIF_DATA=os.path.join(vlib.SPEC, "data")))
+    if r.returncode != 0:
+        raise Infra("osproc under strace failed: " + r.stderr[-1000:])
+    regions = parse_strace(st)
+    evs = [json.loads(x) for x in vlib.read_trace(tr)]
+    cal = next((g for g in regions if g["name"].startswith("CAL")), None)
+    runs = [g for g in regions if not g["name"].startswith("CAL")]
+    visible, observed, out, pending = False, 0, [], None
+    for e in evs:
+        if e["op"] == "OSCalibration":
+            flat = [b for ch in (cal["rand"] if cal else []) for b in ch]
+            visible = bool(cal) and cal["clean"] and flat == e["bytes"]
+            continue
+        if e["op"] == "OSMark":
+            g = runs[e["id"]] if e["id"] < len(runs) else None
+            pending = g if (visible and g and g["clean"]) else None
+            continue
+        if e["op"] == "NewMnemonicCall" and e.get("default_source"):
+            out.append(e)
+            if pending is not None:
+                for ch in pending["rand"]:
+                    out.append({"op": "OSRandom", "bytes": ch})
+            continue
+        if e["op"] == "NewMnemonic" and e.get("default_source"):
+            e["os_observed"] = pending is not None
+            observed += 1 if pending is not None else 0
+            pending = None
+        out.append(e)
+    return [json.dumps(e) + "\n" for e in out], observed
+
+
+def record_c07(binary, tier, seed):
+    combos = [(n, l) for l in range(10) for n in (12, 15, 18, 21, 24)]
+    reps = 1 if tier == "quick" else 10
+    d = vlib.scratch("verif-os-")
+    lines, nproc, observed = [], 0, 0
+    for rep in range(reps):
+        for (n, l) in combos:
+            ls, ob = osproc_trace(binary, n, l, seed * 1000 + rep, d)
+            lines += ls
+            observed += ob
+            nproc += 1
+    if observed == 0:
+        vlib.log("note: getrandom is not observable with this toolchain; C07 falls back to source identity + well-formed, fresh outputs")
+    return lines, nproc, {"processes": nproc, "default_source_calls_explained_by_getrandom": observed,
+                          "getrandom_observable": observed > 0}
+
+
+def replay_c07(path, binary):
+    rp = json.load(open(path))
+    call = next((e for e in rp["unit"] if e.get("op") == "NewMnemonicCall"), None)
+    if call is None:
+        raise Infra("C07 replay file has no NewMnemonic call")
+    d = vlib.scratch("verif-os-")
+    lines, ob = osproc_trace(binary, call["n"]["v"], call["lang"], 4242, d)
+    v = vlib.validate(lines, ["C07"], shards=1)
+    mine = [b for b in v.bad if b[1] == "C07"]
+    return (len(mine) == 0, "re-ran a fresh process under strace: %d events, %d failing" % (len(lines), len(mine)))
+
+
+RECIPES["C07"] = dict(mc=[], record=record_c07, replay=replay_c07, props=["C07", "DRIFT"],
+                      speaks=lambda e: e.get("op") in ("Swap", "NewMnemonic", "OSRandom"),
+                      rule="one fresh process per (language, word count): two NewMnemonic calls on the untouched default source under strace (the bytes the kernel's getrandom "
+                           "delivered must encode to the returned mnemonic), the identity of the pre-swap source, a scripted call, and a default call after swapping back; "
+                           "distinct by (operation, arguments, delivered bytes)")
+
+
+# --------------------------------------------------------------------------
+# C13: call histories.  Drive_History's labelled state graph is covered edge
+# by edge and walked at random; every path is a program run in a fresh process.
+_hist_graph = {}
+
+
+def mc_history(tier, seed):
+    cfg = ('SPECIFICATION Spec\nCONSTANTS BytesMode = "padded" MapGuard = "perlang"\n'
+           'INVARIANTS HistoryIndependence ResultsWellTyped MapsMatchGuards GateBeforeRead ReturnMatchesDelivery SourceInitiallyOS\n'
+           'PROPERTIES SourceOnlyBySwap EveryCallReturns\nCHECK_DEADLOCK FALSE\n')
+    res = [vlib.run_mc("MC_History", cfg, timeout=900)]
+    if tier == "thorough":
+        cfg2 = cfg.replace('"perlang"', '"shared"').replace("PROPERTIES SourceOnlyBySwap EveryCallReturns\n", "")
+        r = vlib.run_mc("MC_History", cfg2, timeout=600, expect_violation="HistoryIndependence")
+        r["module"] = "MC_History[shared-guard control]"
+        res.append(r)
+    return res
+
+
+def mc_drive_history(tier, seed):
+    d = vlib.spec_dir()
+    cfg = vlib.write_cfg(d, "Drive_run.cfg", "SPECIFICATION Spec\nINVARIANT TypeOK\nCHECK_DEADLOCK FALSE\n")
+    rc, out, wall = vlib.tlc(d, "Drive_History.tla", cfg, workers=1, timeout=300, args=["-dump", "dot,actionlabels", "graph.dot"])
+    m = vlib.STAT_RE.findall(out)
+    if "No error has been found" not in out or not m:
+        raise Infra("Drive_History failed:\n" + out[-2000:])
+    _hist_graph["g"] = parse_dot(os.path.join(d, "graph.dot"))
+    return dict(module="Drive_History", states=int(m[-1][0]), distinct=int(m[-1][1]), wall_s=round(wall, 1))
+
+
+COUNTS = {"n12": 12, "n15": 15, "n18": 18, "n21": 21, "n24": 24, "n0": 0, "n13": 13, "n25": 25, "nneg": -12}
+
+
+def script_for(cls, n):
+    need = n + n // 3 if n in (12, 15, 18, 21, 24) else 0
+    if cls == "whole" or need == 0:
+        return [{"k": max(need, 1), "err": ""}]
+    return {"frag": [{"k": 3, "err": ""}, {"k": 0, "err": ""}, {"k": need - 3, "err": ""}],
+            "fail0": [{"k": 0, "err": "custom"}],
+            "fail5": [{"k": 5, "err": ""}, {"k": 0, "err": "EOF"}],
+            "eofpartial": [{"k": need - 1, "err": "EOF"}]}[cls]
+
+
+def step_from_label(lab, slotmap, rng):
+    m = re.match(r'(\w+)\((.*)\)', lab)
+    name, args = m.group(1), [a.strip('"') for a in m.group(2).split(",")]
+    if name == "Chk":
+        if args[0].startswith("cross"):
+            return {"op": "chk", "cls": "valid", "lang": slotmap[args[1]], "src": slotmap[args[0][5]], "var": rng.randrange(3)}
+        return {"op": "chk", "cls": args[0], "lang": slotmap[args[1]], "var": rng.randrange(3)}
+    if name == "Ent":
+        return {"op": "ent", "cls": args[0], "lang": slotmap[args[1]], "var": rng.randrange(3)}
+    if name == "Seed":
+        return {"op": "seed", "cls": args[0], "var": rng.randrange(2)}
+    if name == "Str":
+        return {"op": "str", "n": slotmap[args[0]]}
+    if name == "New":
+        n = COUNTS[args[0]]
+        return {"op": "new", "n": n, "lang": slotmap[args[1]], "script": script_for(args[2], n), "after": "EOF" if args[2] != "whole" else "data", "fill": rng.randrange(2)}
+    if name == "Swap":
+        return {"op": "swap", "kind": args[0]}
+    raise Infra("unknown label " + lab)
+
+
+def record_c13(binary, tier, seed):
+    rng = random.Random(seed)
+    nodes, edges, init = _hist_graph["g"]
+    out_edges = {}
+    for (u, v, lab) in edges:
+        out_edges.setdefault(u, []).append((v, lab))
+    uncovered = set((u, lab) for (u, v, lab) in edges)
+    programs = []   # (slotmap, [labels])
+
+    def slotmap_for(l1, l2):
+        rest = [x for x in range(10) if x not in (l1, l2)]
+        return {"A": l1, "B": l2, "C": rng.choice(rest), "U": rng.choice([-1, -7, -2 ** 31]), "V": rng.choice([10, 11, 255, 2 ** 31])}
+
+    def walk(length, cover, forced=True):
+        x, labs = init, []
+        # the two first uses, in order: A then B
+        for first in (('Chk("valid","A")', 'Chk("valid","B")') if forced else ()):
+            v = next(vv for (vv, ll) in out_edges[x] if ll == first)
+            uncovered.discard((x, first))
+            labs.append(first)
+            x = v
+        for _ in range(length):
+            oe = out_edges[x]
+            pick = None
+            if cover:
+                un = [(vv, ll) for (vv, ll) in oe if (x, ll) in uncovered]
+                loops = [(vv, ll) for (vv, ll) in un if vv == x]      # stay here while something is uncovered here
+                if loops:
+                    pick = rng.choice(loops)
+                elif un:
+                    pick = rng.choice(un)
+                else:                                          # walk towards the nearest state that still has uncovered edges
+                    seen, queue, goal = {x: None}, [x], None
+                    for y in queue:
+                        if any((y, ll) in uncovered for (_, ll) in out_edges[y]):
+                            goal = y
+                            break
+                        for (vv, ll) in out_edges[y]:
+                            if vv not in seen:
+                                seen[vv] = (y, ll)
+                                queue.append(vv)
+                    if goal is None:
+                        break
+                    while seen[goal][0] != x:
+                        goal = seen[goal][0]
+                    pick = (goal, seen[goal][1])
+            if pick is None:
+                pick = rng.choice(oe)
+            uncovered.discard((x, pick[1]))
+            labs.append(pick[1])
+            x = pick[0]
+        return labs
+
+    pairs = [(a, b) for a in range(10) for b in range(10) if a != b]
+    rng.shuffle(pairs)
+    npair = 90 if tier == "quick" else 90
+    for (a, b) in pairs[:npair]:
+        programs.append((slotmap_for(a, b), walk(45 if tier == "quick" else 70, True)))
+    stale = 0
+    while uncovered:                                     # finish the edge cover (states not on an A-then-B path included)
+        a, b = rng.choice(pairs)
+        before = len(uncovered)
+        programs.append((slotmap_for(a, b), walk(120, True, forced=False)))
+        stale = stale + 1 if len(uncovered) == before else 0
+        if stale > 20:
+            raise Infra("edge cover does not progress: %d edges left" % len(uncovered))
+    nlong = 10 if tier == "quick" else 300               # long random histories
+    for _ in range(nlong):
+        a, b = rng.choice(pairs)
+        programs.append((slotmap_for(a, b), walk(rng.randrange(100, 200), False)))
+    d = vlib.scratch("verif-hist-")
+    lines = []
+    for i, (sm, labs) in enumerate(programs):
+        steps = [{"op": "observe"}] + [step_from_label(l, sm, rng) for l in labs] + [{"op": "recheck"}]
+        prog, out = os.path.join(d, "prog.json"), os.path.join(d, "trace.ndjson")
+        json.dump({"steps": steps}, open(prog, "w"))
+        vlib.run_harness(binary, ["prog", "-arg", prog, "-seed", str(seed), "-out", out])
+        lines += vlib.read_trace(out)
+    return lines, len(programs), {"fresh_processes": len(programs), "graph_edges_covered": len(edges), "ordered_first_use_pairs": npair,
+                                  "exhaustive_edge_cover": True}
+
+
+RECIPES["C13"] = dict(mc=[mc_history, mc_drive_history], record=record_c13, props=["C13", "DRIFT"],
+                      speaks=lambda e: e.get("op") in ("ByEntropy", "Check", "ToSeed", "String", "NewMnemonic", "Buf", "Recheck"),
+                      rule="call histories generated from Drive_History's state graph (every edge covered; every ordered pair of first-used languages; long random walks), each in a fresh "
+                           "process; every return is validated natively and against the first result recorded for the same arguments in the same process; caller buffers and "
+                           "earlier results are re-inspected; distinct by (operation, arguments)")
